@@ -49,8 +49,12 @@ def streams(ctx):
 def gen_case(ctx, stream, idx):
     r = ctx.rng(stream, idx)
     n = r.randint(1, 6)
-    ir = irgen.rand_ir(r, nparams=n, type_kinds=T_KINDS, default_kinds=D_KINDS, suffix_defaults=False,
-                       with_return=False, doc_kinds=("plain", "plain", "stop"))
+    if idx % 5 == 4:
+        # columns that resemble each other (shared name prefixes, identical comments / types / defaults)
+        ir = irgen.similar_ir(r, type_kinds=("int", "float", "str", "bool", "literal"), default_kinds=D_KINDS, with_return=False)
+    else:
+        ir = irgen.rand_ir(r, nparams=n, type_kinds=T_KINDS, default_kinds=D_KINDS, suffix_defaults=False,
+                           with_return=False, doc_kinds=("plain", "plain", "stop"))
     # Optional[..] columns carry no non-None default in this domain
     for p in ir["params"].values():
         if p["typ"].startswith("Literal[") and r.random() < 0.3:
